@@ -125,6 +125,11 @@ CFG = {
                  "leptos_server ArcResource::new_with_options (source memo (refetch, source()), untracked fetcher, refetch)", "ArcOnceResource (one future; "
                  "Suspense handle only while there is no value)", "ArcLocalResource/LocalResource (Executor::tick() before every fetch; refetch = tracked signal)"],
     "assumptions": [
+        "a function that writes its own source during its FIRST synchronous run (cfg kinds `k!n` / `k!!n`: `let v = s.get(); if v < n { s.set(n) }`, plain "
+        "AsyncDerived kinds, one source, no effect; every sequence of length <= 3 over {set, refetch, complete, attach, poll 0, idle} on 16 cfgs) is, from the "
+        "model's point of view, the history `create, then set before the first poll` (initial future pending) resp. `first load done, task spawned and "
+        "woken, then set` (initial future ready at once: the harness completes fetch 0 inside the function); the driver builds that state "
+        "(selfWriteInit), the model has no write-inside-the-fetcher step; Resource fetchers (separate source fn) are not driven this way",
         "Owner::pause/resume is modelled in lean/LeptosModel/Model/AsyncPause.lean (`pollDPaused`, `stepP`, `runP`; the driver calls `pollNthP`), an extension "
         "next to Model/Async.step: the task consumes its notification, keeps its Dirty state, runs nothing. Proved for EVERY state (Theorems/C10Pause.lean): a "
         "paused poll runs nothing; a notification with the owner running always reaches the task; a Dirty task polled with the owner running refetches on the "
